@@ -117,3 +117,60 @@ let job_pretty (job : Sx.t) : string =
      | Util.Crash -> "(crash)"
      | Util.OutOfFuel -> "(out-of-fuel)")
   | _ -> failwith "bad pretty job"
+
+(* ---- pexpr: the Gallina model of the expression parser (Front/ParseExpr.v) on the model scanner's tokens;
+   output syntax identical to harness/src/front.rs job_pexpr *)
+let str_of_codes (l : BinNums.coq_N list) : string =
+  String.concat "" (Stdlib.List.map (fun c -> String.make 1 (Char.chr (int_of_n c))) l)
+
+let uty_sx (t : Scan.unsigned_num_type) : string =
+  match t with Scan.Usize -> "usize" | Scan.U8 -> "u8" | Scan.U16 -> "u16" | Scan.U32 -> "u32" | Scan.U64 -> "u64"
+             | Scan.UnspecifiedU -> "uunspec"
+let sty_sx (t : Scan.signed_num_type) : string =
+  match t with Scan.I8 -> "i8" | Scan.I16 -> "i16" | Scan.I32 -> "i32" | Scan.I64 -> "i64" | Scan.UnspecifiedS -> "sunspec"
+
+let rec uexpr_sx (e : ParseExpr.uexpr) : string =
+  let list es = String.concat "" (Stdlib.List.map (fun x -> " " ^ uexpr_sx x) es) in
+  match e with
+  | ParseExpr.UTrue -> "(t)"
+  | ParseExpr.UFalse -> "(f)"
+  | ParseExpr.UNumUnsigned (n, t) -> Printf.sprintf "(nu %s %s)" (string_of_n n) (uty_sx t)
+  | ParseExpr.UNumSigned (z, t) -> Printf.sprintf "(ns %s %s)" (string_of_z z) (sty_sx t)
+  | ParseExpr.UIdentifier s -> Printf.sprintf "(id %s)" (str_of_codes s)
+  | ParseExpr.UArrayAccess (a, i) -> Printf.sprintf "(idx %s %s)" (uexpr_sx a) (uexpr_sx i)
+  | ParseExpr.UTupleLiteral es -> Printf.sprintf "(tup%s)" (list es)
+  | ParseExpr.UTupleAccess (x, i) -> Printf.sprintf "(tupacc %s %s)" (uexpr_sx x) (string_of_n i)
+  | ParseExpr.UStructAccess (x, f) -> Printf.sprintf "(fld %s %s)" (uexpr_sx x) (str_of_codes f)
+  | ParseExpr.UUnaryOp (o, x) ->
+    Printf.sprintf "(un %s %s)" (match o with ParseExpr.UoNot -> "not" | ParseExpr.UoNeg -> "neg") (uexpr_sx x)
+  | ParseExpr.UOp (o, l, r) ->
+    let n = match o with
+      | ParseExpr.BAdd -> "add" | ParseExpr.BSub -> "sub" | ParseExpr.BMul -> "mul" | ParseExpr.BDiv -> "div"
+      | ParseExpr.BMod -> "mod" | ParseExpr.BBitAnd -> "bitand" | ParseExpr.BBitXor -> "bitxor"
+      | ParseExpr.BBitOr -> "bitor" | ParseExpr.BGreaterThan -> "gt" | ParseExpr.BLessThan -> "lt"
+      | ParseExpr.BEq -> "eq" | ParseExpr.BNotEq -> "noteq" | ParseExpr.BShiftLeft -> "shl"
+      | ParseExpr.BShiftRight -> "shr" | ParseExpr.BShortCircuitAnd -> "and" | ParseExpr.BShortCircuitOr -> "or" in
+    Printf.sprintf "(op %s %s %s)" n (uexpr_sx l) (uexpr_sx r)
+  | ParseExpr.UFnCall (f, args) -> Printf.sprintf "(call %s%s)" (str_of_codes f) (list args)
+  | ParseExpr.UIf (c, t, x) -> Printf.sprintf "(if %s %s %s)" (uexpr_sx c) (uexpr_sx t) (uexpr_sx x)
+  | ParseExpr.UCast (ty, x) ->
+    let t = match ty with
+      | ParseExpr.UTBool -> "bool" | ParseExpr.UTUnsigned u -> uty_sx u | ParseExpr.UTSigned s -> sty_sx s
+      | ParseExpr.UTNamed n -> Printf.sprintf "(named %s)" (str_of_codes n) in
+    Printf.sprintf "(cast %s %s)" t (uexpr_sx x)
+
+(* (pexpr id (src "text")) -> (tree ..) | (err) | (outside) *)
+let job_pexpr (job : Sx.t) : string =
+  let text = Sx.bytes (Stdlib.List.hd (Sx.args (Sx.field job "src"))) in
+  match Scan.scan_text (bytes_of_string text) with
+  | Util.Ok (Scan.STokens ts) ->
+    (* fuel: every level of the precedence chain spends one unit before a token is consumed; 40 units per
+       token (plus a constant) is far above what any input needs, and running out is reported, never guessed *)
+    let rec nat_of_int n = if n <= 0 then Datatypes.O else Datatypes.S (nat_of_int (n - 1)) in
+    (match ParseExpr.parse_expr_st (nat_of_int (60 + 40 * Stdlib.List.length ts)) { ParseExpr.toks = ts; ParseExpr.sla = true } with
+     | ParseExpr.POk (e, st) -> if st.ParseExpr.toks = [] then Printf.sprintf "(tree %s)" (uexpr_sx e) else "(err)"
+     | ParseExpr.PErr -> "(err)"
+     | ParseExpr.PNoFuel -> "(nofuel)"
+     | ParseExpr.POutside _ -> "(outside)")
+  | Util.Ok (Scan.SErrors _) -> "(err)"
+  | _ -> "(crash)"
